@@ -192,9 +192,11 @@ def shape_sig(sch, deps):
 
 def compile_perm(stepper, wd, idx, sch, order, budget, inc_name=None, earlier=False):
     xml, patch = S.to_isar(sch, order=order)
+    more = ['zz_more_%d' % k for k in range(idx % 3)] if inc_name else []     # 0..2 further includes in front
     if inc_name:
         # an included file that happens to be called like one of the types defined here (and defines something else)
-        xml = xml.replace('<x>', '<x xmlns:xi="http://www.w3.org/2001/XInclude">\n<xi:include href="%s.xml"/>' % inc_name, 1)
+        xml = xml.replace('<x>', '<x xmlns:xi="http://www.w3.org/2001/XInclude">\n' +
+                          ''.join('<xi:include href="%s.xml"/>\n' % n for n in more + [inc_name]), 1)
     d = os.path.join(wd, 'p%d' % idx)
     pkg = 'c15p%d_%d' % (os.getpid(), idx)
     pkgdir = os.path.join(d, pkg)
@@ -212,6 +214,10 @@ def compile_perm(stepper, wd, idx, sch, order, budget, inc_name=None, earlier=Fa
         with open(os.path.join(d, inc_name + '.xml'), 'w') as f:
             f.write('<x><struct name="ZzUnrelated"><member name="a" type="u8"/></struct></x>\n')
         args.append(os.path.join(d, inc_name + '.xml'))
+        for k, n in enumerate(more):
+            with open(os.path.join(d, n + '.xml'), 'w') as f:
+                f.write('<x><struct name="ZzMore%d"><member name="a" type="u16"/></struct></x>\n' % k)
+            args.append(os.path.join(d, n + '.xml'))
     if earlier:
         # another, unrelated input of the same run, processed first, that defines the same names (in a valid order)
         with open(os.path.join(d, 'aa_earlier.xml'), 'w') as f:
